@@ -161,6 +161,98 @@ theorem parseValue_string_counterexample :
   revert this
   decide +kernel
 
+/-- **String concatenation is an expression, never ONE literal.** A value text `q b₁ q  mid  q b₂ q` — it starts and ends with
+a string literal of the same quote kind `q` (ANY bodies: spaces, operators, dots, the other quote, placeholder look-alikes …),
+`mid` is made of code and further literals, and its code has an arithmetic operator and a blank or a dot, as in
+`"Hello, " + User.name + "!"`, `'Dr. ' + U.d + ' (hon.)'`, `"a" + "b"` — goes through `mask_string_literals` and `parse_value`
+to `Value::Expression(<the text as written>)` (literal bodies restored by `unmask`): it is NOT the string between the first
+and the last quote. The inner quote character is the only thing that tells the two apart, whatever the bodies are.
+(Floats are a parameter of the model: the masked text is assumed not to be read as a float; it starts with a quote.) -/
+theorem parseValue_concat_expr (X : Ext) (q : Char) (b₁ b₂ : Str) (mid : List Seg)
+    (hq : q = '"' ∨ q = '\'') (h1 : ∀ c ∈ b₁, c ≠ q ∧ c ≠ '\n') (h2 : ∀ c ∈ b₂, c ≠ q ∧ c ≠ '\n')
+    (hmid : ∀ x ∈ mid, x.Ok)
+    (hop : ∃ s o, Seg.code s ∈ mid ∧ o ∈ s ∧ isArith o = true)
+    (hsp : ∃ s c, Seg.code s ∈ mid ∧ c ∈ s ∧ (c = '.' ∨ c = ' '))
+    (hf : X.parseF64 (mask (renderSegs (.lit q b₁ :: mid ++ [.lit q b₂]))) = none) :
+    parseValue X (lits (renderSegs (.lit q b₁ :: mid ++ [.lit q b₂]))) (mask (renderSegs (.lit q b₁ :: mid ++ [.lit q b₂])))
+      = .expr (renderSegs (.lit q b₁ :: mid ++ [.lit q b₂])) := by
+  have hl : ∀ x ∈ (Seg.lit q b₁ :: mid ++ [Seg.lit q b₂]), x.Ok := by
+    intro x hx
+    simp only [List.cons_append, List.mem_cons, List.mem_append, List.mem_nil_iff, or_false] at hx
+    rcases hx with rfl | hx | rfl
+    · exact ⟨hq, h1⟩
+    · exact hmid x hx
+    · exact ⟨hq, h2⟩
+  have hun := unmask_mask_segs _ hl
+  obtain ⟨_, hm, _⟩ := renderSegs_closed _ hl
+  obtain ⟨n, hshape⟩ := concat_masked q b₁ b₂ mid
+  generalize hT : lits (renderSegs (.lit q b₁ :: mid ++ [.lit q b₂])) = T at *
+  generalize ht : renderSegs (.lit q b₁ :: mid ++ [.lit q b₂]) = t at *
+  have hM : mask t = q :: (maskBodyAt 0 b₁ ++ [q] ++ maskedSegsAt (0 + (Seg.lit q b₁).lits.length) mid ++ q :: maskBodyAt n b₂) ++ [q] := by
+    unfold mask; rw [hm 0, hshape]
+  generalize hI : maskBodyAt 0 b₁ ++ [q] ++ maskedSegsAt (0 + (Seg.lit q b₁).lits.length) mid ++ q :: maskBodyAt n b₂ = I at hM
+  generalize hMM : mask t = M at *
+  have hqw : isWs q = false := by rcases hq with rfl | rfl <;> rfl
+  have hqI : q ∈ I := by rw [← hI]; simp
+  have hlast : M.getLast? = some q := by rw [hM]; exact getLast_append_some _ _ q rfl
+  have hhead : M.head? = some q := by rw [hM]; rfl
+  have hed : Edges M := ⟨⟨q, hhead, hqw⟩, ⟨q, hlast, hqw⟩⟩
+  have hinner : (M.drop 1).dropLast = I := by rw [hM]; simp
+  have hlen : M.length = I.length + 2 := by rw [hM]; simp
+  -- the operator and the blank / dot are still there after masking
+  have hany : M.any isArith = true := by
+    obtain ⟨s, o, hs, ho, ha⟩ := hop
+    have : o ∈ I := by rw [← hI]; simp [mem_maskedSegsAt_of_code _ mid s o hs ho]
+    rw [hM]; simp only [List.any_eq_true]; exact ⟨o, by simp [this], ha⟩
+  have hdot : (M.contains '.' || M.contains ' ') = true := by
+    obtain ⟨s, c, hs, hc, hcc⟩ := hsp
+    have hcI : c ∈ I := by rw [← hI]; simp [mem_maskedSegsAt_of_code _ mid s c hs hc]
+    have hcM : c ∈ M := by rw [hM]; simp [hcI]
+    rcases hcc with rfl | rfl
+    · simp [hcM]
+    · simp [hcM]
+  have hi64 : parseI64 M = none := by rw [hM]; exact parseI64_quote q _ hq
+  have key : parseScalar X T M = .expr t := by
+    unfold parseScalar
+    have hlow : ∀ w : Str, (∀ c, w.head? = some c → c ≠ q) → (lower M == w) = false := by
+      intro w hw
+      rw [beq_eq_false_iff_ne]
+      intro h
+      have h' := lower_head M q _ hM
+      rw [h] at h'
+      have hqq : q.toLower = q := by rcases hq with rfl | rfl <;> rfl
+      rw [hqq] at h'
+      exact hw q h' rfl
+    have ht1 := hlow "true".toList (by intro c hc; simp at hc; subst hc; rcases hq with rfl | rfl <;> decide)
+    have ht2 := hlow "false".toList (by intro c hc; simp at hc; subst hc; rcases hq with rfl | rfl <;> decide)
+    have ht3 := hlow "null".toList (by intro c hc; simp at hc; subst hc; rcases hq with rfl | rfl <;> decide)
+    simp only [hinner, hlast, hhead, ht1, ht2, ht3, hi64, hf, hun]
+    have hexp : isExpression M = true := by unfold isExpression; rw [hany, hdot]; rfl
+    rcases hq with rfl | rfl
+    · simp [hqI, hexp]
+    · simp [hqI, hexp]
+  unfold parseValue
+  have hnb : (M.head? == some '[') = false := by
+    rw [hhead]; rcases hq with rfl | rfl <;> decide
+  cases hf' : M.length with
+  | zero => omega
+  | succ k =>
+    simp only [parseValueF]
+    rw [trim_self hed, hnb]
+    simpa using key
+
+def exMid : Str := " + User.name + ".toList
+theorem exMid_ok : ∀ x ∈ [Seg.code exMid], x.Ok := by
+  intro x hx
+  simp only [List.mem_cons, List.mem_nil_iff, or_false] at hx
+  subst hx
+  exact ⟨by intro c hc; revert c; decide, by intro c hc; revert c; decide⟩
+example : parseValue ⟨fun _ => none, fun _ => 0, fun _ => [], fun _ => none⟩
+    (lits "\"Hello, \" + User.name + \"!\"".toList) (mask "\"Hello, \" + User.name + \"!\"".toList)
+    = .expr "\"Hello, \" + User.name + \"!\"".toList :=
+  parseValue_concat_expr _ '"' "Hello, ".toList "!".toList [.code exMid] (Or.inl rfl)
+    (by decide) (by decide) exMid_ok ⟨exMid, '+', by simp, by decide, rfl⟩ ⟨exMid, ' ', by simp, by decide, Or.inr rfl⟩ rfl
+
 /-- **`unmask` inverts `mask_string_literals`** on every text made of code (no quote character, no
 `MASK_START`) and string literals with arbitrary bodies: with the table `lits text`, the masked text
 unmasks to the text. -/
